@@ -105,6 +105,7 @@ func Build() *Tools {
 	withLock(filepath.Join(BuildDir(), "build.lock"), func() {
 		os.MkdirAll(dir, 0o777)
 		pruneOld(h)
+		pruneCache()
 		if _, err := os.Stat(t.Gocc); err != nil {
 			run(Repo, "go", "build", "-tags", "verif", "-o", t.Gocc+".tmp", ".")
 			os.Rename(t.Gocc+".tmp", t.Gocc)
@@ -239,4 +240,20 @@ func TransformMain(src []byte) ([]byte, error) {
 	}
 	buf.WriteString("\nvar _ = os.Getpid\n")
 	return buf.Bytes(), nil
+}
+
+// pruneCache empties the private Go build cache when it exceeds 8 GB (disk space is limited).
+func pruneCache() {
+	var total int64
+	filepath.WalkDir(filepath.Join(BuildDir(), "gocache"), func(p string, d fs.DirEntry, err error) error {
+		if err == nil && !d.IsDir() {
+			if i, e := d.Info(); e == nil {
+				total += i.Size()
+			}
+		}
+		return nil
+	})
+	if total > 8<<30 {
+		os.RemoveAll(filepath.Join(BuildDir(), "gocache"))
+	}
 }
